@@ -52,6 +52,8 @@ func runSolver(ctx context.Context, s solverSpec, file string, timeoutS int) (st
 	text := out.String()
 	first := strings.TrimSpace(strings.SplitN(strings.TrimSpace(text), "\n", 2)[0])
 	switch {
+	case strings.Contains(text, "(error "):
+		return "error", text, ms
 	case first == "unsat":
 		return "unsat", text, ms
 	case first == "sat":
